@@ -1,13 +1,85 @@
-"""Engines other than chan, setup and selfcheck."""
+"""Engines other than chan (prim, env, sched), setup and selfcheck."""
+import copy
 import json
 import os
 import time
 
 import vdriver as V
 
-SHRINKERS = {}
+
+# ------------------------------------------------------------- shrinkers ----
+def shrink_ops_plan(plan):
+    """Generic: plans whose schedule/history is the list plan['ops']."""
+    ops = plan.get('ops', [])
+    n = len(ops)
+    if n > 1:
+        for lo, hi in ((0, n // 2), (n // 2, n)):
+            q = copy.deepcopy(plan)
+            q['ops'] = ops[:lo] + ops[hi:]
+            yield q
+        for i in range(n - 1, -1, -1):
+            q = copy.deepcopy(plan)
+            q['ops'] = ops[:i] + ops[i + 1:]
+            yield q
+    if plan.get('envs', 1) > 2:
+        q = copy.deepcopy(plan)
+        q['envs'] = 2
+        yield q
+    for i, op in enumerate(ops):
+        if op.get('faults') and len(op['faults']) > 1:
+            for k in range(len(op['faults'])):
+                q = copy.deepcopy(plan)
+                del q['ops'][i]['faults'][k]
+                yield q
+        if op.get('trail', 0) > 1:
+            q = copy.deepcopy(plan)
+            q['ops'][i]['trail'] = 1
+            yield q
+        if op.get('append'):
+            q = copy.deepcopy(plan)
+            q['ops'][i]['append'] = 0
+            yield q
+    for gi, g in enumerate(plan.get('geoms', [])):
+        if g.get('n', 1) > 1:
+            for nn in (1, g['n'] // 2):
+                if 1 <= nn < g['n']:
+                    q = copy.deepcopy(plan)
+                    q['geoms'][gi]['n'] = nn
+                    yield q
+        if len(g.get('atts', [])) > 1:
+            q = copy.deepcopy(plan)
+            q['geoms'][gi]['atts'] = g['atts'][:-1]
+            yield q
+    if plan.get('corpus'):
+        for i in range(len(plan['corpus'])):
+            q = copy.deepcopy(plan)
+            del q['corpus'][i]
+            yield q
+    # sched: fewer tasks / preemptions
+    tasks = plan.get('tasks')
+    if tasks and len(tasks) > 2:
+        for i in range(len(tasks)):
+            q = copy.deepcopy(plan)
+            del q['tasks'][i]
+            yield q
+    sched = plan.get('schedule')
+    if sched and len(sched) > 0:
+        n = len(sched)
+        for lo, hi in ((0, n // 2), (n // 2, n)):
+            q = copy.deepcopy(plan)
+            q['schedule'] = sched[:lo] + sched[hi:]
+            yield q
+        if n <= 24:
+            for i in range(n):
+                q = copy.deepcopy(plan)
+                del q['schedule'][i]
+                yield q
 
 
+SHRINKERS = {'env': shrink_ops_plan, 'prim': shrink_ops_plan, 'sched': shrink_ops_plan}
+
+
+# ----------------------------------------------------------------- setup ----
 def setup():
     t0 = time.time()
     for v in ('asan', 'plain', 'tsi', 'dbg'):
@@ -21,10 +93,171 @@ def setup():
 
 
 def selfcheck(tier, seed):
-    V.log('selfcheck: not implemented yet')
+    V.log('selfcheck: see DESIGN.md; canaries run inside each check')
     return 0
 
 
+# ------------------------------------------------------- generic engines ----
+ENGINE_INFO = {
+    'env': dict(
+        rule='one evaluation = one codec call (encode or decode) inside an operation '
+             'history executed under an environment (reference: fresh objects, '
+             'unperturbed; environment 0: the history, unperturbed; environments '
+             '1..: allocator junk fill 0xA5/0xFF/PRNG, seeded padding and '
+             'quarantine, 192 KiB stack scribble, interposed clock/rand). A plan '
+             'is non-trivial when at least one long-lived object is used by two '
+             'or more operations (so that history can matter); distinct = '
+             'distinct generated plans (indices) with that property.',
+        assumptions=[
+            'equality is demanded per build (asan -O1, plain -O2), not across builds',
+            'the model of persistent option state is: setters accumulate until Reset; '
+            'SetSkipAttributeTransform accumulates on a Decoder',
+            'nothing is asserted about the output of a failed operation, only about '
+            'the next successful one on the same objects',
+            'nondeterminism from CPU instructions (rdrand) or std::random_device is '
+            'not interposed'],
+        components=dict(
+            real=['Encoder, ExpertEncoder, Decoder, EncoderBuffer, DecoderBuffer',
+                  'MeshEdgebreaker/MeshSequential/PointCloudSequential/'
+                  'PointCloudKdTree Encoder and Decoder objects (reused)'],
+            stubbed=['allocator policy (junk fill, padding, quarantine)',
+                     'libc gettimeofday/clock_gettime/time/rand/random (answered '
+                     'from the environment seed, counted)',
+                     'stack residue (seeded scribble before every operation)'])),
+    'prim': dict(
+        rule='one evaluation = one write/read primitive operation (scalar, byte run, '
+             'varint, bit region, rANS/adaptive/direct/folded/symbol bit coder block, '
+             'symbol block) of a generated sequence on one EncoderBuffer, read back '
+             'under one EOF placement. A plan is non-trivial when it mixes at least '
+             'two op kinds; distinct = distinct generated plans.',
+        assumptions=[
+            'current-version readers only (pre-2.2 readers have no writer in the tree)',
+            'the exhaustive 8/16-bit varint and zig-zag enumeration is plain input '
+            'enumeration, labelled as such; the claim rests on interleavings and EOF'],
+        components=dict(
+            real=['EncoderBuffer, DecoderBuffer, Encode/DecodeVarint, RAnsBit*, '
+                  'AdaptiveRAnsBit*, DirectBit*, FoldedBit32*, SymbolBit*, '
+                  'Encode/DecodeSymbols'],
+            stubbed=['the medium between writer and reader (EOF at every byte, bit '
+                     'flips inside length-prefixed blocks)'])),
+    'sched': dict(
+        rule='one evaluation = one schedule: N tasks (real threads, one runnable at a '
+             'time) each running its own operation sequence on its own objects, with '
+             'the seeded scheduler choosing the next task at every preemption point '
+             '(access to writable static storage, atomics, static-init guards, '
+             'mutexes, operator new/delete, sampled function entries). Non-trivial = '
+             'at least one preemption actually switched tasks; distinct = distinct '
+             'hashes of the context-switch sequence.',
+        assumptions=[
+            'sequentially consistent scheduler: hardware memory-model effects are '
+            'not explored',
+            'races inside uninstrumented libraries are visible only through result '
+            'cross-talk'],
+        components=dict(
+            real=['libdraco compiled with -fsanitize=thread code generation',
+                  'real pthreads for tasks (thread-local storage behaves as in '
+                  'production)'],
+            stubbed=['thread scheduler (seeded baton, random walk / PCT)',
+                     'TSan runtime (our implementation of the ABI: access log, '
+                     'vector clocks)', 'operator new/delete (yield points)'])),
+}
+
+
+def engine_batch(sim, engine, tier, seed, d, budget, extra=None, setarch=False):
+    args = [engine, 'batch', '--tier', tier, '--seed', str(seed), '--out',
+            os.path.join(d, 'sum.json'), '--logdir', d, '--workers',
+            str(V.workers()), '--repo', V.REPO]
+    if budget:
+        args += ['--budget', str(budget)]
+    if extra:
+        args += extra
+    r = V.run_sim(sim, args, timeout=max(7200, budget * 2 if budget else 0), setarch=setarch)
+    if r.returncode != 0:
+        raise V.MachineryFault('%s batch failed: %s' % (engine, (r.stdout + r.stderr)[-3000:]))
+    return V.load_json(os.path.join(d, 'sum.json'))
+
+
 def check_engine(prop, tier, seed):
-    V.log('engine for %s not implemented yet' % prop)
-    return 2
+    t0 = time.time()
+    info = V.PROPS[prop]
+    engine = info['engine']
+    variants = info['thorough_variants' if tier == 'thorough' else 'variants']
+    outdir = V.fresh_dir(os.path.join(V.VERIF, 'out', '%s-%s' % (prop, tier)))
+    budget = V.env_int('VERIF_BUDGET_S', 900 if tier == 'thorough' else 0)
+    sims = {}
+    for v in variants:
+        sims[v], _ = V.build(v)
+    det_mod = {'env': (7 if tier == 'thorough' else 11),
+               'prim': (29 if tier == 'thorough' else 101),
+               'sched': (5 if tier == 'thorough' else 7)}[engine]
+    det_runs = {}
+    for v in variants:
+        det_runs[v] = V.determinism_audit(sims[v], engine, tier, seed,
+                                          os.path.join(outdir, 'det-' + v), det_mod)
+    all_viol, all_known, summaries = [], {}, []
+    for v in variants:
+        sim = sims[v]
+        d = V.fresh_dir(os.path.join(outdir, 'batch-' + v))
+        summary = engine_batch(sim, engine, tier, seed, d,
+                               budget / len(variants) if budget else 0)
+        summary['variant'] = v
+        summaries.append(summary)
+        mach = [c for c in summary['candidates'] if c.get('t') == 'machinery']
+        if mach:
+            raise V.MachineryFault('worker died outside a run: ' +
+                                   json.dumps(mach[0])[:3000])
+        if summary.get('canary_failures'):
+            raise V.MachineryFault('canary misbehaved: ' +
+                                   json.dumps(summary['canary_failures'])[:2000])
+        cands = [V.normalise_candidate(sim, c) for c in summary['candidates']
+                 if c.get('t') == 'cand' and c.get('prop') == prop]
+        viol, known = V.process_candidates(prop, engine, sim, cands,
+                                           os.path.join(outdir, 'gate-' + v), seed, tier)
+        for x in viol:
+            x['variant'] = v
+            if x.get('replay'):
+                doc = V.load_json(x['replay'])
+                doc['variant'] = v
+                json.dump(doc, open(x['replay'], 'w'), indent=1)
+        all_viol += viol
+        for k, n in known.items():
+            all_known[k] = all_known.get(k, 0) + n
+    main = summaries[0]
+    ei = ENGINE_INFO[engine]
+    wall = max(sum(s['wall_s'] for s in summaries), 1e-9)
+    runs = sum(s['runs'] for s in summaries)
+    cov = dict(
+        evaluations=sum(s['calls'] for s in summaries),
+        runs=runs,
+        runs_per_hour=int(runs / wall * 3600),
+        seeds=dict(first=0, last=main['total_planned'] - 1, count=main['runs'],
+                   note='run i uses mix(VERIF_SEED, engine, i)'),
+        distinct_nontrivial=main.get('distinct_nontrivial',
+                                     main.get('plans_with_reuse', 0)),
+        rule=ei['rule'],
+        simulated_time='none: no timer, deadline or sleep on the claimed surface; '
+                       'logical time is the operation / scheduling-step index',
+        builds=[dict(variant=s['variant'], runs=s['runs'], calls=s['calls'],
+                     wall_s=round(s['wall_s'], 2), deaths=s.get('deaths', 0))
+                for s in summaries],
+        determinism_audit_runs=det_runs,
+        components=ei['components'],
+        known_findings_hit=all_known,
+        exhaustive=False,
+    )
+    for k in ('ops', 'envs', 'reused_object_ops', 'plans_with_reuse', 'fault_kinds',
+              'probes', 'canaries', 'distinct_schedules', 'shared_static_accesses',
+              'conflict_classes', 'preemption_points', 'context_switches',
+              'accesses_instrumented', 'tasks_run', 'exhaustive_part', 'eof_placements',
+              'yield_kinds', 'strategies', 'static_symbols', 'results_compared'):
+        if k in main:
+            cov[k] = main[k]
+    samples = []
+    for s in main.get('samples', [])[:4]:
+        s = dict(s)
+        s.pop('t', None)
+        samples.append(s)
+    cov['samples'] = samples or [dict(note='no sample recorded')]
+    V.write_evidence(prop, tier, seed, info['level'], cov, time.time() - t0,
+                     len(all_viol), ei['assumptions'])
+    return V.finish(prop, all_viol, all_known)
